@@ -52,19 +52,36 @@ def extract(repo):
         if isinstance(st, ast.If) and 'session_kind' in ast.unparse(st.test):
             f['client_override'] = f'if {lc.cmp_nf(st.test)}: ' + '; '.join(lc.body_nf(st.body))
     f['extra_cost_default'] = lc.body_nf(common.find(tree, 'SessionBase.extra_cost').body)
-    # the refusal branch of _throttled_request / _throttled_message
-    def handler_body(qual, exc):
-        n = common.find(tree, qual)
-        for h in ast.walk(n) if n else []:
+    # the refusal branch of _throttled_request / _throttled_message, described by *roles* so that
+    # renaming or renumbering locals does not matter: which hook is called, which error object is
+    # made the result, and that the flag it sets guards `close()` later in the function
+    def refusal_roles(qual, exc):
+        fn = common.find(tree, qual)
+        out = []
+        if fn is None:
+            return out
+        closers = set()       # names tested by an `if` whose body closes the session
+        for st in ast.walk(fn):
+            if isinstance(st, ast.If) and isinstance(st.test, ast.Name) \
+                    and any(isinstance(c, ast.Call) and isinstance(c.func, ast.Attribute) and c.func.attr == 'close'
+                            for c in ast.walk(ast.Module(body=st.body, type_ignores=[]))):
+                closers.add(st.test.id)
+        for h in ast.walk(fn):
             if isinstance(h, ast.ExceptHandler) and h.type is not None and lc.strip_self(h.type) == exc:
-                return lc.body_nf_renamed(n, h.body)
-        return []
-    f['refusal_branch_request'] = handler_body('RPCSession._throttled_request', 'ExcessiveSessionCostError')
-    f['refusal_branch_message'] = handler_body('MessageSession._throttled_message', 'ExcessiveSessionCostError')
-    node = common.find(tree, 'RPCSession._throttled_request')
-    # the statement that closes the session: `if <flag set by the refusal branch>: close`
-    f['disconnect_tail'] = [ln for ln in lc.body_nf_renamed(node, node.body if node else [])
-                            if ln.startswith('If:') and 'close' in ln]
+                for st in h.body:
+                    if isinstance(st, ast.Expr):
+                        out.append('call ' + lc.stmt_nf(st))
+                    elif isinstance(st, ast.Assign) and isinstance(st.value, ast.Call):
+                        out.append('result ' + lc.strip_self(st.value))
+                    elif isinstance(st, ast.Assign) and isinstance(st.value, ast.Constant) \
+                            and st.value.value is True and isinstance(st.targets[0], ast.Name):
+                        out.append('set flag guarding close()' if st.targets[0].id in closers
+                                   else 'set flag ' + st.targets[0].id)
+                    else:
+                        out.append(lc.stmt_nf(st))
+        return out
+    f['refusal_branch_request'] = refusal_roles('RPCSession._throttled_request', 'ExcessiveSessionCostError')
+    f['refusal_branch_message'] = refusal_roles('MessageSession._throttled_message', 'ExcessiveSessionCostError')
     # sleep before the handler
     f['sleep_guard'] = []
     for qual in ('RPCSession._throttled_request', 'MessageSession._throttled_message'):
@@ -112,7 +129,6 @@ def render(f):
         f'def extraCostDefault : List String := {lc.lean_strs(f["extra_cost_default"])}\n'
         f'def refusalBranchRequest : List String := {lc.lean_strs(f["refusal_branch_request"])}\n'
         f'def refusalBranchMessage : List String := {lc.lean_strs(f["refusal_branch_message"])}\n'
-        f'def disconnectTail : List String := {lc.lean_strs(f["disconnect_tail"])}\n'
         f'def sleepGuard : List String := {lc.lean_strs(f["sleep_guard"])}\n'
         f'def parseErrorCost : String := {lc.lean_str(f["parse_error_cost"])}\n'
         'end Aiorpcx.Facts.C14\n')
